@@ -581,6 +581,20 @@ theorem extendSmallWrap_wraps :
     ((extendSmallLimbWrap 97 17 60 : Nat) : Int) % (17 : Nat) ≠ centerInt 97 60 % (17 : Nat) := by
   decide
 
+/-- contract form: the unrepaired limb code is right whenever the centred value fits, `|x| ≤ p` (the "small norm"
+    contract of `rlwe.ExtendBasisSmallNormAndCenterNTTMontgomery`: its in-tree callers pass secret keys) -/
+theorem extendSmallWrap_contract (q0 p c : Nat) (hcq : c < q0) (hq : q0 < W) (hp : p < W)
+    (hfit : (centerInt q0 c).natAbs ≤ p) :
+    ((extendSmallLimbWrap q0 p c : Nat) : Int) % p = centerInt q0 c % p := by
+  apply extendSmallWrap_spec q0 p c hcq hq hp
+  intro hc
+  unfold centerInt at hfit
+  rw [if_pos hc] at hfit
+  omega
+
+-- test: a ternary secret coefficient `−1` (`c = q0 − 1`) with any `p ≥ 1`
+example : (centerInt 97 96).natAbs ≤ 17 := by decide
+
 end Lattigo.BasisExt
 
 #print axioms Lattigo.BasisExt.hps_sum
@@ -601,3 +615,4 @@ end Lattigo.BasisExt
 #print axioms Lattigo.BasisExt.extendSmall_large_repaired
 #print axioms Lattigo.BasisExt.extendSmallWrap_spec
 #print axioms Lattigo.BasisExt.extendSmallWrap_wraps
+#print axioms Lattigo.BasisExt.extendSmallWrap_contract
